@@ -3,19 +3,33 @@ import Restli.Proofs.CleanDir
 
 Property theorems only (helper lemmas live in `Proofs/CleanDir.lean`). The model is
 `Model/CleanDir.lean` (`CleanTargetDir` as written); the specification is `Spec/CleanDir.lean`.
-All statements are for every tree — no bound on depth or fan-out. -/
+All statements are for every tree — no bound on depth or fan-out.
+
+Coverage of symbolic links. Trees contain regular files, directories and symbolic links; a link is
+a non-directory entry (`Node.file n (.link dest)`, which is what `os.ReadDir` reports it as) and a
+"file" below (`FileAt`, `files`) means a non-directory entry of either sort, its `content` being the
+content id or the link's destination text. Every theorem is stated for such trees: a link whose
+name is not owned is kept with its destination (`c20_foreign_files_untouched`, spelled out in
+`c20_foreign_links_kept`), no link is created or re-pointed (`c20_nothing_created`), links with an
+owned name are unlinked like files (`c20_owned_files_removed`), and a directory holding only a
+foreign link is not empty (`c20_no_empty_dirs_left`). That no link is ever followed is
+`c20_links_not_followed` (the result does not depend on where links point) together with
+`c20_outside_untouched` (the sibling directory links may point to is handed back as it was); that
+the real function behaves like this model on real symbolic links — into the target, out of it, to
+an ancestor, to a file, dangling — is what the correspondence run checks on every case, comparing
+the outside directory too. Not covered: a target path that is itself a symbolic link. -/
 namespace Restli.CleanDir
 
-/-- Every file that is not owned by the generator is still there, at the same path and with
-the same content, after cleaning — whatever the tree, whether or not the target is ".", and
+/-- Every file or symbolic link that is not owned by the generator (by its name) is still there,
+at the same path and with the same content or destination, after cleaning — whatever the tree, whether or not the target is ".", and
 **also when the cleaner stops with an error**. -/
 theorem c20_foreign_files_untouched (O : Own) (dot : Bool) (t : Node) (f : FileAt)
     (hf : f ∈ files t) (ho : owned O f.name = false) :
     f ∈ filesO (clean O dot (some t)).node :=
   foreign_kept_outer O t dot f hf ho
 
-/-- Cleaning never creates or moves a file: every file present afterwards was there before,
-at the same path, with the same content. -/
+/-- Cleaning never creates, moves or re-points anything: every file or link present afterwards was
+there before, at the same path, with the same content or destination. -/
 theorem c20_nothing_created (O : Own) (dot : Bool) (t : Node) (f : FileAt)
     (hf : f ∈ filesO (clean O dot (some t)).node) : f ∈ files t :=
   nothing_created_outer O t dot f hf
@@ -28,7 +42,8 @@ theorem c20_clean_eq_prune (O : Own) (dot : Bool) (n : Name) (cs : List Node)
     clean O dot (some (.dir n cs)) = ⟨pruneRoot O dot (.dir n cs), false⟩ :=
   cleanOuter_eq_prune O (.dir n cs) dot hb ⟨n, cs, rfl⟩
 
-/-- After a successful clean no owned file is left anywhere. -/
+/-- After a successful clean no owned file is left anywhere (a link with an owned name counts:
+it is unlinked, whatever it points to). -/
 theorem c20_owned_files_removed (O : Own) (dot : Bool) (n : Name) (cs : List Node)
     (hb : noBlock O (.dir n cs) = true) :
     ∀ f ∈ filesO (clean O dot (some (.dir n cs))).node, owned O f.name = false := by
@@ -41,8 +56,8 @@ theorem c20_owned_files_removed (O : Own) (dot : Bool) (n : Name) (cs : List Nod
     obtain ⟨g, hg, rfl⟩ := hf
     simpa [FileAt.under] using pruneL_no_owned O cs g hg
 
-/-- Directories that survive below the root are exactly those that still contain a file
-somewhere beneath them: every surviving child subtree has a file. -/
+/-- Directories that survive below the root are exactly those that still contain a file or a
+link somewhere beneath them: every surviving child subtree has one. -/
 theorem c20_no_empty_dirs_left (O : Own) (t t' : Node) (h : prune O t = some t') : files t' ≠ [] :=
   prune_has_file O t t' h
 
@@ -74,6 +89,28 @@ theorem c20_dot_survives (O : Own) (n : Name) (cs : List Node) :
   · cases cleanChildren O cs with
     | mk cs' e => cases e <;> simp
 
+/-- A symbolic link whose name the generator does not own survives cleaning where it was, still
+pointing where it pointed — also when the cleaner stops with an error, and whatever the link
+points to (instance of `c20_foreign_files_untouched`). -/
+theorem c20_foreign_links_kept (O : Own) (dot : Bool) (t : Node) (dirs : List Name) (n : Name)
+    (dest : String) (hf : (⟨dirs, n, .link dest⟩ : FileAt) ∈ files t) (ho : owned O n = false) :
+    (⟨dirs, n, .link dest⟩ : FileAt) ∈ filesO (clean O dot (some t)).node :=
+  c20_foreign_files_untouched O dot t _ hf ho
+
+/-- Links are never followed: the outcome does not depend on where the links of the tree point.
+Re-pointing every link by an arbitrary `g` (to a directory full of generated files, to an ancestor,
+to nothing) and cleaning gives the cleaned tree with its surviving links re-pointed the same way,
+and the same error flag. -/
+theorem c20_links_not_followed (O : Own) (dot : Bool) (g : String → String) (t : Node) :
+    clean O dot (some (retarget g t)) =
+      ⟨(clean O dot (some t)).node.map (retarget g), (clean O dot (some t)).err⟩ :=
+  cleanOuter_retarget O g t dot
+
+/-- What lies beside the target — the directory links inside the target may point to — is the
+same after the call, whatever the target contains, error or not. -/
+theorem c20_outside_untouched (O : Own) (dot : Bool) (w : World) :
+    (cleanWorld O dot w).outside = w.outside := rfl
+
 /-! Non-vacuity: a tree with generated files, a manifest, user files and nested empty
 directories satisfies the hypotheses and is changed by cleaning; and the error case. -/
 def sample : Node :=
@@ -93,6 +130,26 @@ example : noBlock ownV2 blocked = false := by decide
 example : (clean ownV2 false (some blocked)).err = true := by decide
 example : (⟨["out", "a", "go-restli-manifest.gr.json"], "u.txt", 1⟩ : FileAt)
     ∈ filesO (clean ownV2 false (some blocked)).node := by decide
+
+/-- links: to a directory of generated files outside (kept, not followed), one with a generated
+name (unlinked), one named like the manifest pointing to a non-empty directory (unlinked, no
+error), a dangling one, and a directory that holds nothing but a foreign link (kept) -/
+def linked : Node :=
+  .dir "out" [.file "go-restli-manifest.gr.json" (.link "outside/gen"), .file "x.gr.go" (.link "outside/gen"),
+    .file "othergen" (.link "outside/gen"), .file "gone" (.link "nowhere"), .file "a.gr.go" 1,
+    .dir "pkg" [.file "onlygen" (.link "outside/onlygen"), .file "Foo.gr.go" 2],
+    .dir "up" [.file "loop.gr.go" (.link "..")]]
+example : noBlock ownV2 linked = true := by decide
+example : clean ownV2 false (some linked) =
+    ⟨some (.dir "out" [.file "othergen" (.link "outside/gen"), .file "gone" (.link "nowhere"),
+      .dir "pkg" [.file "onlygen" (.link "outside/onlygen")]]), false⟩ := by rfl
+example : (⟨["out", "pkg"], "onlygen", .link "outside/onlygen"⟩ : FileAt) ∈ files linked := by decide
+example : owned ownV2 "onlygen" = false := by decide
+example : (clean ownV2 false (some (retarget (fun _ => "elsewhere") linked))).node =
+    some (.dir "out" [.file "othergen" (.link "elsewhere"), .file "gone" (.link "elsewhere"),
+      .dir "pkg" [.file "onlygen" (.link "elsewhere")]]) := by rfl
+example : (cleanWorld ownV2 false ⟨some linked, some (.dir "outside" [.dir "gen" [.file "Bar.gr.go" 7]])⟩).outside
+    = some (.dir "outside" [.dir "gen" [.file "Bar.gr.go" 7]]) := rfl
 
 /-- the same for the root module's names -/
 example : (clean ownRoot false (some (.dir "out" [.file "parsed-specs.gr.json" 1, .file "a.gr.go" 2,
